@@ -8,15 +8,24 @@
     * only PREDEFINED bot messages flow into `_render_string`; the text produced from an LLM completion
       reaches `BotMessage.text` without passing through the renderer (parametricity in `render`).
 
+    * (phase 2/4) dataflow over an IR regenerated from the source: no template sink receives LLM text, a context value
+      (= stored LLM text) or history text — in particular inside `_render_string` the template SOURCE depends on the
+      `template_str` parameter and literals only (`llm_text_not_rendered_ir`);
+    * (phase 4) the multi-step turn with the try/except structure of `_process_start_flow` and the `generate_events` loop, the
+      parser being an oracle that may raise anything: no parser behaviour makes the turn raise; full strength for the repaired
+      runtime (`multi_step_never_raises_repaired`), partial + counterexamples as is;
+    * (phase 4) `literal_eval` as an oracle: the wrapper of 2.x GenerateValueAction (`generate_value_v2_total`, repaired).
+
   What is NOT carried by a theorem (search territory of the check, see design_notes/C17.md):
-    * code outside actions that consumes LLM-derived text: Colang 1.0 `_process_start_flow` (multi-step
-      generation), Colang 2.x `AddFlowsAction` and the execution of generated flows, `literal_eval`;
+    * Jinja, `literal_eval`, the Colang parsers, `compute_next_steps` (oracles here), Colang 2.x `AddFlowsAction` and the
+      execution of generated flows, `eval_expression`;
     * the full statement
         ∀ mode cfg history (outs : List Str), ∃ reply, generate cfg mode history outs = .ok reply ∧ WellFormed reply
           ∧ ∀ sentinel ∈ templateSyntax outs, Literal sentinel reply
-      over the real runtimes.  It is FALSE on the current tree (open findings: multi-step mode lets an
-      exception escape / never returns; `bot $var` as an LLM-predicted intent is dereferenced; generated 2.x
-      flows interpolate `{…}`), and is examined end-to-end with the hostile corpus.
+      over the real runtimes.  It is FALSE on the current tree (open findings: in multi-step mode an expression error of an
+      LLM-written flow and the 100-event valve leave `generate`; `bot $var` as an LLM-predicted intent is dereferenced;
+      generated 2.x flows interpolate `{…}`; non-plain literals break the 2.x state serialisation), and is examined end-to-end
+      with the hostile corpus, incl. the stored-then-quoted conversations.
 -/
 import NemoVerif.Lemmas.LlmText
 import NemoVerif.Lemmas.LlmGen
@@ -338,27 +347,184 @@ theorem flowFromNld_lines_indented (l : Str) : startsWith (indentLine l) (lit " 
 theorem postValueV2_total (p : Parser) (lastPromptLine out : Str) : ∃ v, postValueV2 p lastPromptLine out = .ok v :=
   postValueV2_ok p lastPromptLine out
 
+/-! ## Phase 4 — multi-step generation with the try/except structure: the parser is an oracle that may raise ANYTHING
+
+FULL statement (not provable, false of the code — see the two counterexamples):
+  `∀ parse nextSteps cont p flowId out history, ∃ l, multiStepTurn parse nextSteps cont p flowId out history = .ok l ∧ lastEv l = some .listen`
+What is proved: no behaviour of the PARSER can make the turn raise (`…_contains_parser`, `multi_step_error_sources`); the turn
+raises only when `compute_next_steps` / a later step raises or the 100-event safety valve fires; if the step oracles are total the
+outcome is a non-empty event list ending in `Listen` or the safety valve (`multi_step_never_raises_partial`). -/
+
+/-- `_process_start_flow`: an exception can leave only when the parser RETURNED exactly the one expected flow and
+    `_compute_next_steps` raised it; whatever the parser raises is contained. -/
+theorem process_start_flow_contains_parser {ε δ : Type} (parse : ParseOracle ε) (nextSteps : Str → Except δ (List Ev))
+    (flowId body : Str) (d : δ) (h : processStartFlowE parse nextSteps flowId body = .error d) :
+    parse (dynamicFlowSource flowId body) = .ok [flowId] ∧ nextSteps (dynamicFlowSource flowId body) = .error d :=
+  processStartFlowE_error parse nextSteps flowId body d h
+
+/-- … and in every other case (parser raised anything, returned no flow, several flows, a flow with another id) the result is the
+    fallback `BotIntent general response`. -/
+theorem process_start_flow_fallback {ε δ : Type} (parse : ParseOracle ε) (nextSteps : Str → Except δ (List Ev))
+    (flowId body : Str) (h : parse (dynamicFlowSource flowId body) ≠ .ok [flowId]) :
+    processStartFlowE parse nextSteps flowId body = .ok [.botIntent generalResponse] := by
+  rcases processStartFlowE_cases parse nextSteps flowId body with ⟨hp, _⟩ | ⟨_, he⟩
+  · exact absurd ((tryPassed_iff parse flowId _).1 hp) h
+  · exact he
+
+example : (fun (_ : Str) => (Except.error PyErr.indexError : Except PyErr (List Str))) (lit "x") ≠ .ok [lit "f"] := by simp
+
+/-- the repaired function refines the phase-2 model (`parsesFlow` := "the try block passed") when the step oracle is total -/
+theorem process_start_flow_refines {ε : Type} (parse : ParseOracle ε) (nextSteps : Str → List Ev) (flowId body : Str) :
+    processStartFlowE (δ := Empty) parse (fun s => .ok (nextSteps s)) flowId body =
+      .ok (processStartFlow (fun src => match processStartFlowTry parse flowId src with | .passed => true | _ => false)
+            nextSteps flowId body) := by
+  unfold processStartFlowE processStartFlow
+  cases h : processStartFlowTry parse flowId (dynamicFlowSource flowId body) <;> simp [h]
+
+/-- `generate_events`: every way the loop can end -/
+theorem generate_events_outcomes {δ : Type} (step : List Ev → Except δ (List Ev)) (events : List Ev) :
+    (∃ l, generateEvents step events = .ok l ∧ l ≠ [] ∧ lastEv l = some .listen)
+    ∨ generateEvents step events = .error .tooManyEvents
+    ∨ (∃ evs e, step evs = .error e ∧ generateEvents step events = .error (.raised e)) :=
+  genLoop_spec step 102 events []
+
+/-- the fuel of the model is not an artefact: `tooManyEvents` is reported only when more than 100 events were appended -/
+theorem generate_events_too_many_is_real {δ : Type} (step : List Ev → Except δ (List Ev)) (events : List Ev)
+    (h : generateEvents step events = .error .tooManyEvents) : ∃ appended : List Ev, appended.length > 100 := by
+  obtain ⟨extra, hx⟩ := genLoop_tooMany_real step 102 events [] (by simp) h
+  exact ⟨extra, by simpa using hx⟩
+
+/-- **multi_step_error_sources**: for EVERY parser behaviour, an exception that leaves the multi-step turn is the safety valve or
+    was raised by `compute_next_steps` on a flow the parser accepted, or by a later step — never by the parser. -/
+theorem multi_step_error_sources {ε δ : Type} (parse : ParseOracle ε) (nextSteps : Str → Except δ (List Ev))
+    (cont : List Ev → Except δ (List Ev)) (p : Parser) (flowId out : Str) (history : List Ev) (x : GenErr δ)
+    (h : multiStepTurn parse nextSteps cont p flowId out history = .error x) :
+    x = .tooManyEvents ∨ ∃ d, x = .raised d ∧ ((∃ s, parse s = .ok [flowId] ∧ nextSteps s = .error d) ∨ ∃ evs, cont evs = .error d) := by
+  unfold multiStepTurn at h
+  rcases generate_events_outcomes (stepMS parse nextSteps cont flowId) (history ++ [multiStepNextStep (parsesTopOf parse) p out])
+    with ⟨l, hl, _⟩ | ht | ⟨evs, e, hs, hr⟩
+  · rw [hl] at h; cases h
+  · rw [ht] at h; left; cases h; rfl
+  · rw [hr] at h; right; cases h
+    refine ⟨e, rfl, ?_⟩
+    rcases stepMS_error parse nextSteps cont flowId evs e hs with hns | hc
+    · exact Or.inl hns
+    · exact Or.inr ⟨evs, hc⟩
+
+/-- **multi_step_never_raises (partial)**: hypotheses = the two step oracles are total (excludes exactly the open finding
+    `escape:multi_step:generated-flow-expression`); conclusion for EVERY parser behaviour and every completion: the turn ends
+    with a non-empty list of events whose last one is `Listen`, or with the safety valve (open finding
+    `escape:multi_step:generate_events:too-many-events`). -/
+theorem multi_step_never_raises_partial {ε δ : Type} (parse : ParseOracle ε) (nextSteps : Str → Except δ (List Ev))
+    (cont : List Ev → Except δ (List Ev)) (hns : ∀ s, ∃ l, nextSteps s = .ok l) (hc : ∀ evs, ∃ l, cont evs = .ok l)
+    (p : Parser) (flowId out : Str) (history : List Ev) :
+    (∃ l, multiStepTurn parse nextSteps cont p flowId out history = .ok l ∧ l ≠ [] ∧ lastEv l = some .listen)
+    ∨ multiStepTurn parse nextSteps cont p flowId out history = .error .tooManyEvents := by
+  rcases generate_events_outcomes (stepMS parse nextSteps cont flowId) (history ++ [multiStepNextStep (parsesTopOf parse) p out])
+    with h | h | ⟨evs, e, hs, _⟩
+  · exact Or.inl h
+  · exact Or.inr h
+  · rcases stepMS_error parse nextSteps cont flowId evs e hs with ⟨s, _, h1⟩ | h2
+    · obtain ⟨l, hl⟩ := hns s; rw [hl] at h1; cases h1
+    · obtain ⟨l, hl⟩ := hc evs; rw [hl] at h2; cases h2
+
+/-- non-vacuity: total step oracles exist, and with them a raising parser gives the fallback turn `[BotIntent general response]`
+    followed by what `cont` does -/
+example : multiStepTurn (ε := Unit) (δ := Empty) (fun _ => .error ()) (fun _ => .ok []) (fun _ => .ok [.listen])
+    .none (lit "f") (lit "bot x") [] = .ok [.listen] := by rfl
+
+/-- counterexample 1 (open finding `escape:multi_step:generated-flow-expression`): the parser accepts `$x = x`, the evaluation
+    of the expression raises inside `compute_next_steps`, outside every try: the exception leaves `generate_events`. -/
+theorem multi_step_expression_error_as_is_counterexample :
+    multiStepTurn (ε := Unit) (δ := Unit) (fun _ => .ok [lit "f"]) (fun _ => .error ()) (fun _ => .ok [])
+      .none (lit "f") (lit "$x = x") [] = .error (.raised ()) := by rfl
+
+/-- counterexample 2 (open finding `escape:multi_step:generate_events:too-many-events`): steps that never reach `Listen`. -/
+theorem multi_step_too_many_events_as_is_counterexample :
+    (match multiStepTurn (ε := Unit) (δ := Unit) (fun _ => .error ()) (fun _ => .ok []) (fun _ => .ok [.step 0])
+      .none (lit "f") (lit "bot x") [] with | .error .tooManyEvents => true | _ => false) = true := by decide +kernel
+
+/-! ### … and at FULL strength for the repaired runtime (fixes/C17-v1-flow-error-ends-turn.diff) -/
+
+/-- **multi_step_never_raises (repaired runtime, full strength)**: for EVERY behaviour of the parser, of `compute_next_steps` (both
+    may raise anything, at any iteration) and of the actions, and for every completion, the multi-step turn yields a non-empty
+    list of events whose last one is `Listen`.  (The result type is a plain list: in the repaired code no `raise` is left on this
+    path; what the theorem adds is that the loop always ENDS with `Listen`, also through the 100-event valve.) -/
+theorem multi_step_never_raises_repaired {ε δ : Type} (parse : ParseOracle ε) (nextSteps : Str → Except δ (List Ev))
+    (cont : List Ev → Except δ (List Ev)) (act : List Ev → Option (List Ev)) (p : Parser) (flowId out : Str) (history : List Ev) :
+    multiStepTurnR parse nextSteps cont act p flowId out history ≠ []
+      ∧ lastEv (multiStepTurnR parse nextSteps cont act p flowId out history) = some .listen :=
+  genLoopR_spec _ 102 _ []
+
+/-- the two counterexamples of the as-is runtime end with the internal-error events and `Listen` once repaired -/
+theorem multi_step_expression_error_repaired :
+    multiStepTurnR (ε := Unit) (δ := Unit) (fun _ => .ok [lit "f"]) (fun _ => .error ()) (fun _ => .ok []) (fun _ => none)
+      .none (lit "f") (lit "$x = x") [] = internalErrorEvents ++ [.listen] := by rfl
+
+/-! ## Phase 4 — `literal_eval` is an oracle; the wrapper of 2.x `GenerateValueAction`
+
+FULL statement: whatever `literal_eval` does (raises anything, returns any Python literal) the action either returns a value that
+a flow variable / the serialised state can hold, or raises the fixed `Invalid LLM response` (contained by the action dispatcher).
+True of the REPAIRED wrapper (`generate_value_v2_total`, fixes/C17-v2-generated-value-plain.diff); false as is
+(`generate_value_v2_nonstorable_as_is_counterexample`, open finding `escape:v2_value:serialization.py:encode_to_dict:Exception`). -/
+
+theorem generate_value_v2_total {ε : Type} (literalEval : Str → Except ε Lit) (p : Parser) (lastPromptLine out : Str) :
+    (∃ x, generateValueV2R literalEval p lastPromptLine out = .ok x ∧ x.isPlain = true)
+    ∨ ∃ v, generateValueV2R literalEval p lastPromptLine out = .error (.invalidLlmResponse v) :=
+  generateValueV2R_spec literalEval p lastPromptLine out
+
+/-- as is: only the exception class is controlled (`…_partial`: nothing is said about the returned value) -/
+theorem generate_value_v2_total_partial {ε : Type} (literalEval : Str → Except ε Lit) (p : Parser) (lastPromptLine out : Str) :
+    (∃ x, generateValueV2 literalEval p lastPromptLine out = .ok x)
+    ∨ ∃ v, generateValueV2 literalEval p lastPromptLine out = .error (.invalidLlmResponse v) :=
+  generateValueV2_spec literalEval p lastPromptLine out
+
+/-- as is, `...` (Ellipsis) reaches the flow variable: a value the state serialisation cannot store -/
+theorem generate_value_v2_nonstorable_as_is_counterexample :
+    ∃ x, generateValueV2 (ε := Unit) (fun _ => .ok .ellipsis) .none (lit "$v =") (lit "...") = .ok x ∧ x.isPlain = false :=
+  ⟨.ellipsis, by
+    obtain ⟨v, hv⟩ := postValueV2_ok .none (lit "$v =") (lit "...")
+    simp [generateValueV2, hv], rfl⟩
+
 /-! ## Phase 2 — the dataflow theorem over GENERATED data
 
 `Generated/C17Dataflow.lean` is the IR of every function of generation.py (1.0), generation.py (2.x) and taskmanager.py that
 contains a template sink, rewritten from the working tree before every build. -/
 
 open NemoVerif.DataflowIR in
+/-- the provenance classes of *conversation data*: text the LLM produced (`llm`), values stored in the context (`context`: the
+    previous bot message, generated values, action results) and the event history (`history`).  None of them may reach the
+    SOURCE of a template. -/
+def dataOrigins : List Origin := [.llm, .context, .history]
+
+open NemoVerif.DataflowIR in
 /-- (finite fact about generated data, kernel evaluation) the abstract interpreter is conclusive on every generated function
-    and reports no sink whose template expression may carry LLM text -/
+    and reports no sink whose template expression may carry conversation data of any of the three classes -/
 theorem generated_sinks_checked :
-    NemoVerif.Generated.C17Dataflow.funcs.all (fun f => safe .llm f.prog f.initLlm) = true := by decide +kernel
+    NemoVerif.Generated.C17Dataflow.funcs.all (fun f => dataOrigins.all (fun o => safe o f.prog f.initLlm)) = true := by
+  decide +kernel
 
 open NemoVerif.DataflowIR in
 /-- **llm_text_not_rendered (IR)**: in every function of the three modules, on EVERY run (any branch choices, any loop counts)
-    started with LLM text at most in `events` / the 2.x `state`, no template sink (`_render_string`, `from_string`, `Template`,
-    `render_task_prompt(task=…)`) receives a template expression that may carry LLM text. -/
+    started with conversation data at most in `events` / `context` / the 2.x `state`, no template sink (`_render_string`,
+    `from_string`, `Template`, `render_task_prompt(task=…)`) receives a template expression that may carry LLM text, a context
+    value or history text.  For `_render_string` itself (phase 4) this is: the source given to `from_string` depends on the
+    `template_str` parameter and literals only; a context value enters the rendering only as a binding of `render(...)`. -/
 theorem llm_text_not_rendered_ir :
-    ∀ f ∈ NemoVerif.Generated.C17Dataflow.funcs, ∀ (e e' : Env) (l : List (Nat × Bool)),
-      Run .llm f.prog e e' l → Abstracts e f.initLlm → ∀ s ∈ l, s.2 = false := by
-  intro f hf e e' l hrun hinit
-  have h := List.all_eq_true.1 generated_sinks_checked f hf
-  exact safe_sound .llm f.prog f.initLlm (by simpa using h) e e' l hrun hinit
+    ∀ f ∈ NemoVerif.Generated.C17Dataflow.funcs, ∀ o ∈ dataOrigins, ∀ (e e' : Env) (l : List (Nat × Bool)),
+      Run o f.prog e e' l → Abstracts e f.initLlm → ∀ s ∈ l, s.2 = false := by
+  intro f hf o ho e e' l hrun hinit
+  have h := List.all_eq_true.1 (List.all_eq_true.1 generated_sinks_checked f hf) o ho
+  exact safe_sound o f.prog f.initLlm h e e' l hrun hinit
+
+open NemoVerif.DataflowIR in
+/-- (finite fact about generated data) the theorem above is not vacuous about the renderer of predefined bot messages:
+    `LLMGenerationActions._render_string` is among the generated functions, its template-engine sink `from_string` is listed,
+    and `context` is one of the variables assumed to carry conversation data on entry. -/
+theorem render_string_is_modelled :
+    NemoVerif.Generated.C17Dataflow.funcs.any (fun f =>
+      f.file == "nemoguardrails/actions/llm/generation.py" && f.name == "_render_string"
+        && f.sinks.any (fun s => s.2.1 == "from_string") && !f.initLlm.isEmpty) = true := by decide +kernel
 
 open NemoVerif.DataflowIR in
 /-- non-vacuity: the analysis does flag the mutant "render what the LLM returned" and that sink is reachable in the semantics -/
@@ -367,6 +533,15 @@ example : safe .llm (.seq (.assign 0 [] [.llm]) (.ite (.render 0 [1] [.config]) 
 open NemoVerif.DataflowIR in
 example : ∃ e' l, Run .llm (.seq (.assign 0 [] [.llm]) (.render 1 [0] [])) (fun _ => false) e' l ∧ (1, true) ∈ l :=
   ⟨_, _, .seq (.assign _ 0 [] [.llm]) (.render _ 1 [0] []), by simp [carries, Env.set]⟩
+
+open NemoVerif.DataflowIR in
+/-- non-vacuity (phase 4): the shape "a callback that reads `context` (variable 2) is handed to `re.sub` whose result becomes
+    the template source" is flagged, both through the entry variable and through the `context` class itself; the unchanged
+    shape (the loop rewrites `$x` to `{{x}}` from the template alone, `context` only feeds `render_context`) is accepted. -/
+example : safe .llm (.seq (.assign 3 [2] [.context, .lit]) (.seq (.assign 1 [1, 3] [.lit]) (.render 0 [1] []))) [2] = false
+    ∧ safe .context (.seq (.assign 3 [2] [.context, .lit]) (.seq (.assign 1 [1, 3] [.lit]) (.render 0 [1] []))) [2] = false
+    ∧ dataOrigins.all (fun o => safe o (.seq (.loop (.seq (.assign 4 [1] [.lit]) (.assign 1 [1, 4] [.lit])))
+        (.seq (.render 0 [1] []) (.assign 9 [2, 9] [.context]))) [2]) = true := by decide
 
 /-! ## Witnesses for the parts of the second sentence of C17 that are NOT claimed (open findings, by design)
 
